@@ -162,17 +162,22 @@ def h05_lits(npos: int, star: int, m0: int, m1: int, m2: int, m3: int, m4: int, 
     return fin(py == c_ok)
 
 
-def h05_unknown(npos: int, k0: bool, k1: bool, k2: bool, k3: bool, k4: bool, ua: bool, uk: bool) -> bool:
+def h05_unknown(npos: int, k0: bool, k1: bool, k2: bool, k3: bool, k4: bool, ua: bool, uk: bool, nafter: int = 0) -> bool:
     """
     post: _
     """
     if not ua and not uk:
         return skip()
     n = _sel(npos, 4)
+    # positionals written after the star-argument: f(0, *xs, 1, 2)
+    m = _sel(nafter, 3) if ua else 0
+    if not ua and nafter != 0:
+        return skip()
     kws = [nm for nm, f in zip(_NAMES, (k0, k1, k2, k3, k4)) if f]
     args = [(Composite(KnownValue(i)), None) for i in range(n)]
     if ua:
         args.append((Composite(GenericValue(tuple, [TypedValue(int)])), ARGS))
+        args += [(Composite(KnownValue(100 + i)), None) for i in range(m)]
     args += [(Composite(KnownValue(0)), nm) for nm in kws]
     if uk:
         args.append((Composite(GenericValue(dict, [TypedValue(str), TypedValue(int)])), KWARGS))
@@ -184,6 +189,7 @@ def h05_unknown(npos: int, k0: bool, k1: bool, k2: bool, k3: bool, k4: bool, ua:
     feat_star_kw = bool(ua) and any(kw in pk_after for kw in kws)
     if excluded(feat_star_kw=feat_star_kw, rejected=not py, npos=npos, ua=ua, uk=uk):
         return skip()
+    n = n + m
     free = [nm for nm in _NAMES if nm not in kws]
     some = False  # some expansion binds
     some_nonempty = False  # some expansion taking >= 1 element from every star argument binds
@@ -200,6 +206,9 @@ def h05_unknown(npos: int, k0: bool, k1: bool, k2: bool, k3: bool, k4: bool, ua:
                 some = True
                 if (not ua or L >= 1) and (not uk or len(sub) >= 1):
                     some_nonempty = True
+    if py and not some and excluded(feat_pos_after_star=(m > 0), accepted_unbindable=True, npos=npos, ua=ua, uk=uk):
+        # known finding C05-K2: positionals written after a star-argument are not counted
+        return skip()
     if py:
         return fin(some)
     return fin(not some_nonempty)
